@@ -63,7 +63,7 @@ func main() {
 		logger.Println("producer message queue has been disabled")
 	}
 
-	if opts.IPFIXEnabled {
+	if opts.IPFIXEnabled || opts.NetflowV9Enabled {
 		// the information model is shared with the NetFlow v9 decoder: load the
 		// extension elements before any listener starts decoding with it
 		if err := ipfix.LoadExtElements(opts.VFlowConfigPath); err != nil {
